@@ -155,6 +155,23 @@ def sc_eq(c, S):
     return m, [("eq", e, zs)], None
 
 
+def sc_late_forall(c, S):
+    """the set is attached with forall() AFTER the constraints were handed to st() (an inequality and an equality), beside a
+    different, smaller default set from minmax: each constraint holds on the set attached to it"""
+    m, x, w, z = _new(c)
+    v = m.dvar(2)
+    zs = S(c, z)
+    obj = x.sum() + v.sum() + w
+    m.minmax(obj, z <= 0.25, z >= -0.125, z[0] == z[1])      # a segment: an equality that holds on it need not hold off it
+    k1 = ((x * z).sum() + w - 3 <= 0)
+    e2 = (x * z).sum() - (v * z).sum() + w - c.fresh_real("t")
+    k2 = (e2 == 0)
+    m.st(k1, k2)
+    k1.forall(*zs)
+    k2.forall(*zs)
+    return m, [("le", (x * z).sum() + w - 3, zs), ("eq", e2, zs)], None
+
+
 def sc_default_set(c, S):
     """constraints without forall use the set given to minmax/maxmin"""
     m, x, w, z = _new(c)
@@ -245,7 +262,7 @@ def sc_set_then_box(c, S):
 
 
 SCENARIOS = {
-    "le": sc_le, "ge": sc_ge, "two-rows": sc_two_rows, "eq": sc_eq, "default-set": sc_default_set,
+    "le": sc_le, "ge": sc_ge, "two-rows": sc_two_rows, "eq": sc_eq, "late-forall": sc_late_forall, "default-set": sc_default_set,
     "maxmin-own-set": sc_maxmin_own_set, "ldr-full": lambda c, S: sc_ldr(c, S, "full"), "ldr-diag": lambda c, S: sc_ldr(c, S, "diag"),
     "ldr-one": lambda c, S: sc_ldr(c, S, "one"), "piecewise": sc_piecewise, "interleaved-sets": sc_interleaved_sets,
     "set-then-box": sc_set_then_box,
@@ -327,7 +344,7 @@ TOO_HEAVY = [
     "set-then-box/square",
     "two-rows/square"
 ]
-TIMES = {"ldr-full/box-per-component": 94.0, "set-then-box/budget": 90.0, "le/square": 122.0, "ge/budget": 14.6, "ge/square": 121.5, "two-rows/square": 121.6, "eq/square": 14.2, "default-set/budget": 65.2, "default-set/box-ball": 136.7, "default-set/square": 243.2, "default-set/list-and-args": 14.2, "maxmin-own-set/budget": 14.7, "maxmin-own-set/square": 121.9, "maxmin-own-set/list-and-args": 14.4, "ldr-full/box": 5.2, "ldr-full/budget": 138.6, "ldr-full/ball": 5.8, "ldr-full/shifted-ball": 121.5, "ldr-full/ellipsoid": 122.1, "ldr-full/box-ball": 139.2, "ldr-full/square": 366.5, "ldr-diag/budget": 102.3, "ldr-diag/ellipsoid": 18.9, "ldr-diag/square": 364.2, "ldr-one/budget": 135.4, "ldr-one/ellipsoid": 121.7, "ldr-one/box-ball": 14.2, "ldr-one/square": 244.3, "piecewise/budget": 40.6, "piecewise/box-ball": 172.2, "piecewise/square": 245.4, "interleaved-sets/budget": 24.3, "interleaved-sets/box-ball": 121.7, "interleaved-sets/square": 121.4, "le/exp": 120.4}
+TIMES = {"late-forall/budget": 91.0, "ldr-full/box-per-component": 94.0, "late-forall/box-per-component": 93.0, "set-then-box/budget": 90.0, "le/square": 122.0, "ge/budget": 14.6, "ge/square": 121.5, "two-rows/square": 121.6, "eq/square": 14.2, "default-set/budget": 65.2, "default-set/box-ball": 136.7, "default-set/square": 243.2, "default-set/list-and-args": 14.2, "maxmin-own-set/budget": 14.7, "maxmin-own-set/square": 121.9, "maxmin-own-set/list-and-args": 14.4, "ldr-full/box": 5.2, "ldr-full/budget": 138.6, "ldr-full/ball": 5.8, "ldr-full/shifted-ball": 121.5, "ldr-full/ellipsoid": 122.1, "ldr-full/box-ball": 139.2, "ldr-full/square": 366.5, "ldr-diag/budget": 102.3, "ldr-diag/ellipsoid": 18.9, "ldr-diag/square": 364.2, "ldr-one/budget": 135.4, "ldr-one/ellipsoid": 121.7, "ldr-one/box-ball": 14.2, "ldr-one/square": 244.3, "piecewise/budget": 40.6, "piecewise/box-ball": 172.2, "piecewise/square": 245.4, "interleaved-sets/budget": 24.3, "interleaved-sets/box-ball": 121.7, "interleaved-sets/square": 121.4, "le/exp": 120.4}
 QUICK_SETS = ["box", "box-per-component", "polytope", "ball", "ellipsoid", "box-ball", "budget", "abs"]
 
 
